@@ -50,4 +50,16 @@ var specs = map[string]propSpec{
 		Rule: "rapid generates a world with wide bodies (13-40 attributes / blocks / functions, 60% of attributes addressable so same-address targets occur), 1-2 paths x 1-3 files, a list of 6-12 positional/file queries plus all whole-path queries (collect targets/origins, validate, workspace symbols, tokens, symbols) and a history of 0-10 other queries. Metamorphic oracle: the canonical rendering of every query result (order sensitive; diagnostics as multiset) must be equal across 5 repetitions on the same decoder, after the history, and on 3 freshly built worlds (schema rebuilt, files re-parsed, references re-collected); evaluations = comparisons. Non-trivial = some compared result is a collection with >= 2 elements (class wide when >= 13, where sort.Sort stops being stable); distinct = SHA-1 of the case JSON.",
 		Assumptions: commonAssumptions,
 	},
+	"C04": {
+		Test: "TestC04", Quick: 250, Thorough: 2500, Shards: 16,
+		QuickTimeout: 10 * time.Minute, ThoroughTimeout: 40 * time.Minute,
+		Rule: "rapid generates a world (1-2 paths, possibly one unreadable, schemas with dependent bodies / nested blocks / count, for_each, dynamic and self-ref extensions / completion hooks) and a history of 8-30 queries of every kind at token-boundary-biased positions, including queries that return errors (unknown file, position out of range, unreadable path). Oracle: a deep snapshot (reflection incl. unexported fields, slices up to capacity, sorted maps, pointer graph) of every PathContext and the DecoderContext taken before the history must be byte-identical after every step; evaluations = steps compared. Non-trivial = the schema has a dependent body or extension (derived schemas are built) and at least one query returned an error; distinct = SHA-1 of the case JSON.",
+		Assumptions: commonAssumptions,
+	},
+	"C05": {
+		Test: "TestC05", Quick: 60, Thorough: 400, Shards: 8, Race: true,
+		QuickTimeout: 10 * time.Minute, ThoroughTimeout: 45 * time.Minute,
+		Rule: "rapid generates a world (as for C04) and 45-190 query descriptors in which a few queries are repeated many times so that goroutines meet on the same blocks and file bytes; the queries run once sequentially (reference results) and then on 4-32 goroutines pulling from the same list, sharing one PathReader / PathContext / schema and either one Decoder or one Decoder per goroutine. The test binary is built with -race (GORACE=halt_on_error=1): any race report is a violation (the report plus the running case is the replay artefact); every concurrent result must equal the sequential one (canonical rendering) and the deep snapshot of all caller-supplied data must be unchanged; evaluations = results compared. Non-trivial = schema with dependent bodies / extensions and >= 4 goroutines; distinct = SHA-1 of the case JSON. The harness does not own the scheduler: only interleavings that actually happen are observed.",
+		Assumptions: append([]string{"stress exploration under the Go race detector: precise for the executions observed, silent about the others"}, commonAssumptions...),
+	},
 }
